@@ -53,6 +53,8 @@ pub trait Shapes {
     fn a_str(&self, s: &str);
     fn a_opt(&self, o: Option<u32>);
     fn a_opt_ref(&self, o: Option<&u64>);
+    fn a_opt_slice(&self, o: Option<&[u8]>);
+    fn a_opt_str(&self, o: Option<&str>);
     fn a_res(&self, r: Result<u32, u8>);
     fn a_into(&self, v: impl Into<u64>);
     fn a_struct(&self, p: Pt);
@@ -151,6 +153,18 @@ impl Shapes for Sh {
                 self.rec.ptr.set(v as *const u64 as usize);
             }
             None => self.rec.tag.set(0),
+        }
+    }
+    fn a_opt_slice(&self, o: Option<&[u8]>) {
+        match o {
+            Some(sl) => { self.rec.tag.set(1); self.rec.len.set(sl.len()); self.rec.ptr.set(sl.as_ptr() as usize); }
+            None => { self.rec.tag.set(0); self.rec.len.set(usize::MAX); }
+        }
+    }
+    fn a_opt_str(&self, o: Option<&str>) {
+        match o {
+            Some(st) => { self.rec.tag.set(1); self.rec.len.set(st.len()); self.rec.ptr.set(st.as_ptr() as usize); }
+            None => { self.rec.tag.set(0); self.rec.len.set(usize::MAX); }
         }
     }
     fn a_res(&self, r: Result<u32, u8>) {
@@ -656,6 +670,32 @@ nd::harnesses! {
                 let e = s.rec.elems.get();
                 assert!(e[0] == b'h' as u64 && e[1] == 0xC3 && e[2] == 0xA9 && e[3] == 0xE2);
             }
+        }
+    }
+
+    /// Optional slices and strings in argument position: `None`, `Some(empty)` and `Some(non-empty)` stay three
+    /// different things (presence, length and address arrive unaltered).
+    #[kani::unwind(7)]
+    fn c02_optional_slice_and_str_arguments() {
+        let mut s = mk();
+        let data: [u8; 3] = nd::any();
+        let l = nd::range(0, 3);
+        let some: bool = nd::any();
+        let as_str: bool = nd::any();
+        nd::cover!(some && l == 0, "Some(empty)");
+        nd::cover!(!some, "None");
+        let obj = trait_obj!(&mut s as Shapes);
+        if as_str {
+            nd::assume(is_ascii(&data));
+            let st = unsafe { core::str::from_utf8_unchecked(&data[..l]) };
+            obj.a_opt_str(if some { Some(st) } else { None });
+        } else {
+            obj.a_opt_slice(if some { Some(&data[..l]) } else { None });
+        }
+        drop(obj);
+        assert!(s.rec.tag.get() == if some { 1 } else { 0 }, "presence arrives unaltered");
+        if some {
+            assert!(s.rec.len.get() == l && s.rec.ptr.get() == data[..l].as_ptr() as usize);
         }
     }
 
